@@ -31,7 +31,8 @@ class Tok:
         if self.kind == "c":
             return "c"
         if self.kind == "p":
-            return f"p:{ord(self.text)}"
+            # a multi-character punctuation (`::`) is one token per character for the model
+            return " ".join(f"p:{ord(ch)}" for ch in self.text)
         if self.kind == "n":
             d, nf, e, fl = self.lit
             return f"n:{d}:{nf}:{e}:{1 if fl else 0}"
@@ -81,11 +82,17 @@ class Attr:
         if not self.parens:
             return f"#[{self.kind}]"
         out = ""
+        prev = None
         for t in self.toks:
             if t.kind == "c":
                 out += ", "
             else:
+                # adjacent non-comma tokens are separated by a blank, otherwise `"doc"MILLI` or `7MILLI`
+                # would be lexed as ONE suffixed literal
+                if prev is not None and prev.kind != "c":
+                    out += " "
                 out += t.rust()
+            prev = t
         return f"#[{self.kind}({out})]"
 
     def item(self):
